@@ -454,6 +454,14 @@ def _check_ordering_key(eng, keyf):
     ok = (len(body) == 1 and isinstance(body[0], ast.Return)
           and ast.dump(body[0].value) == ast.dump(ast.parse("(str(type(x)), x)", mode="eval").body))
     if not ok:
+        # the repaired form (7aeae84): frozenset labels are ordered by their sorted elements, every other label as before -
+        # still "type name first, then a total order within the type", which is what the abstract label order stands for
+        want = ast.parse("def ordering_key(x):\n"
+                         "    if isinstance(x, frozenset):\n"
+                         "        return str(type(x)), tuple(sorted(map(ordering_key, x)))\n"
+                         "    return str(type(x)), x\n").body[0].body
+        ok = len(body) == len(want) and all(ast.dump(a) == ast.dump(b) for a, b in zip(body, want))
+    if not ok:
         raise Unsupported("ordering_key body changed")
 
 
